@@ -182,7 +182,7 @@ def generate(tier, rng):
              ('echo', ({'b': 1},), {}), ('echo', ({'a': 7},), {}), ('echo', ({},), {}), ('deco_xy', (1,), {}), ('deco_a', (), {'a': 2})]
     clients = [{'strict': True}, {'strict': False}, {'strict': True, 'error_cls': U.errclass_json(U.ClientBaseError)}]
     for (m, args, kwargs) in calls:
-        for cl in clients:
+        for cl in clients + [dict(clients[0], json_hooks=True)]:
             for notation in SINGLE_NOTATIONS:
                 yield loop_case(notation, [spec(m, args, kwargs, notify=(notation == 'notify'))], cl)
     # id streams: increasing, decreasing (the order of the ids is not the order of the calls), random integers / strings
@@ -207,6 +207,8 @@ def generate(tier, rng):
                         continue
                     its = [items[0]] + [spec(it['method'], spec_params(it) if isinstance(spec_params(it), list) else ()) for it in items[1:]]
                 yield loop_case(notation, its, rng.choice(clients), gens[r % len(gens)] if n > 1 else rng.choice(gens))
+                if r % 4 == 1:
+                    yield loop_case(notation, its, dict(rng.choice(clients), json_hooks=True), gens[r % len(gens)] if n > 1 else gens[0])
                 if r % 3 == 0 and gens[r % len(gens)]['k'] == 'sequential':
                     yield loop_case(notation, its, dict(rng.choice(clients[:2]), batch_strict=False), gens[r % len(gens)])
     # batches made only of notifications
@@ -256,6 +258,10 @@ class _Loop:
         r = await d.dispatch(text, context=S.next_ctx())
         self.events += list(S.LOG)
         return None if r is None else r[0]
+
+
+class _ClientHookEncoder(pjrpc.common.JSONEncoder):
+    pass
 
 
 class SyncC(AbstractClient):
@@ -378,6 +384,9 @@ def run_impl(c):
                     pyrandom.seed(g['seed'])
                 t = _Loop(c['server'], server_async, coro)
                 kw2 = dict(kw, **IC.client_kwargs(cl))
+                if cl.get('json_hooks'):
+                    # the user's own codec hooks, each equivalent to the default it replaces
+                    kw2.update(json_loader=S._hook_loads, json_dumper=S._hook_dumps, json_encoder=_ClientHookEncoder, json_decoder=S.HookDecoder)
                 if cl.get('batch_strict') is False:
                     # a client whose batches do not check for duplicate ids themselves (a supported constructor argument): with
                     # distinct ids everything else is as with the default batch class
